@@ -1,5 +1,6 @@
 """C10 - Zernike families are correctly indexed, normalised, and recovered by fitting."""
 import math
+import os
 import random
 
 import numpy as np
@@ -315,6 +316,89 @@ def oracle_fit_linear(rng, trials=6, tol=1e-6):
                     'N': N, 'a': a, 'b': b, 'x': x.tolist(), 'y': y.tolist(), 'z1': z1.tolist(), 'z2': z2.tolist(),
                     'relative_error': err}
     return None
+
+
+def oracle_terms(rng):
+    """basis clauses for EVERY supported term k = 0..119 of every family, through the public evaluation path
+    (`poly`): poly(c + e_k) - poly(c) must be the k-th published polynomial Z_k (independent `pub_basis`, up to the
+    family's sign convention for sine terms) at sample points that include the pupil edge r = 1 and the centre; this
+    covers "all 120 terms are supported", the edge value |Z_k(1, phi)| = N_k |az(phi)| and the linearity of poly in
+    each coefficient.  Returns the first failing term or None."""
+    zk = _zk()
+    npt = 14
+    rr = np.array([1.0, 1.0, 1.0, 0.0] + [math.sqrt(rng.random()) for _ in range(npt - 4)])
+    th = np.array([0.3, 2.1, -1.2, 0.0] + [rng.uniform(-math.pi, math.pi) for _ in range(npt - 4)])
+    x, y = rr * np.cos(th), rr * np.sin(th)
+    rad, phi = np.sqrt(x * x + y * y), np.arctan2(y, x)
+    for fam, cls, short in FAMS:
+        C = getattr(zk, cls)
+        Z = pub_basis(short, 120, x, y)                     # npt x 120, independent of optiland
+        c = [rng.uniform(-1, 1) for _ in range(120)]
+        base = np.asarray(C(list(c)).poly(rad, phi), dtype=float) * np.ones(npt)
+        for k in range(120):
+            ck = list(c)
+            ck[k] += 1.0
+            d = np.asarray(C(ck).poly(rad, phi), dtype=float) * np.ones(npt) - base
+            err = min(float(np.max(np.abs(d - Z[:, k]))), float(np.max(np.abs(d + Z[:, k]))))
+            if not err <= 1e-7 * (1 + float(np.max(np.abs(Z[:, k])))):
+                n, m = pub_list(short)[k]
+                return {'kind': 'term-not-evaluated', 'family': fam, 'term_index': k, 'n': int(n), 'm': int(m),
+                        'call': f'{cls}(c + e_{k}).poly(r, phi) - {cls}(c).poly(r, phi)  (len(c) = 120)',
+                        'r': rad.tolist(), 'phi': phi.tolist(), 'difference': d.tolist(), 'expected_Z_k': Z[:, k].tolist(),
+                        'max_abs_error': err, 'len_terms': len(C(ck).terms(0.5, 0.1))}
+    return None
+
+
+def oracle_mean_square():
+    """mean of Z_k^2 over the unit disk for every term of every family (exact quadrature): 1 for Standard / Noll,
+    (1 + [m = 0]) / (2n + 2) for Fringe (unit edge value)"""
+    zk = _zk()
+    R, P, W = _quad_nodes()
+    for fam, cls, short in FAMS:
+        inst = getattr(zk, cls)()
+        for k, (n, m) in enumerate(inst.indices):
+            v = np.asarray(inst.get_term(1.0, int(n), int(m), R, P), dtype=float)
+            ms = float(np.sum(v * v * W) / np.pi)
+            exp = 1.0 if short != 'fringe' else (2.0 if m == 0 else 1.0) / (2 * n + 2)
+            if not abs(ms - exp) <= 1e-7:
+                return {'kind': 'mean-square', 'family': fam, 'term_index': k, 'n': int(n), 'm': int(m),
+                        'call': f'{cls}().get_term(1, {n}, {m}, r, phi)', 'mean_square_over_disk': ms, 'expected': exp}
+    return None
+
+
+def guarded(name, f):
+    """run an oracle; an exception raised INSIDE the implementation on a supported input is itself a failing input
+    (reported with the call that raised); an exception of the harness propagates (and alarms as a harness failure)"""
+    import traceback
+    try:
+        return f()
+    except Exception as e:
+        tb = traceback.extract_tb(e.__traceback__)
+        inner = tb[-1]
+        if os.path.abspath(inner.filename).startswith(os.path.abspath(vlib.REPO)):
+            caller = next((fr for fr in reversed(tb) if not os.path.abspath(fr.filename).startswith(os.path.abspath(vlib.REPO))), inner)
+            return {'kind': 'implementation-raised', 'oracle': name, 'error': f'{type(e).__name__}: {str(e)[:160]}',
+                    'raised_at': f'{os.path.relpath(inner.filename, vlib.REPO)}:{inner.lineno} in {inner.name}',
+                    'call': (caller.line or '').strip()[:200]}
+        raise
+
+
+def oracle_table(seed):
+    rng = random.Random(seed)
+    return (('indices', oracle_indices, 360), ('terms', lambda: oracle_terms(rng), 360), ('edge', oracle_edge, 360),
+            ('mean-square', oracle_mean_square, 360), ('orthonormal', oracle_orthonormal, 28800),
+            ('poly-linear', lambda: oracle_linear(rng), 30), ('fit-recovers', lambda: oracle_fit(rng), 12),
+            ('fit-linear', lambda: oracle_fit_linear(rng), 6))
+
+
+def all_witnesses(seed):
+    """every oracle's first failing input (each oracle independently, implementation exceptions included)"""
+    out = []
+    for name, f, n in oracle_table(seed):
+        w = guarded(name, f)
+        if w:
+            out.append(dict(w, violates_property=True, oracle=name))
+    return out
 
 
 def all_oracles(seed):
@@ -672,14 +756,12 @@ def check_opd(ctx):
 def check_oracles(ctx):
     """the property stated directly on the implementation (independent Python statement), run on every check so that a
     broken proof / correspondence always comes with a concrete failing input when one exists"""
-    rng = random.Random(ctx.seed + 77)
     out = {'name': 'property_oracles_on_implementation', 'n': 0, 'nontrivial': 0, 'samples': [], 'disagreements': [],
-           'note': 'index rules x3 (360 positions), R(1)=1 (360), Gram matrices Standard/Noll (2 x 120 x 120 by exact '
+           'note': 'index rules x3 (360 positions), every term k=0..119 of every family through poly(c+e_k)-poly(c) = Z_k incl. r=1 (360), '
+                   'mean of Z_k^2 over the disk (360), R(1)=1 (360), Gram matrices Standard/Noll (2 x 120 x 120 by exact '
                    'quadrature), poly linearity (30), fit recovery (12), fit linearity (6)'}
-    for name, f, n in (('indices', oracle_indices, 360), ('edge', oracle_edge, 360), ('orthonormal', oracle_orthonormal, 28800),
-                       ('poly-linear', lambda: oracle_linear(rng), 30), ('fit-recovers', lambda: oracle_fit(rng), 12),
-                       ('fit-linear', lambda: oracle_fit_linear(rng), 6)):
-        w = f()
+    for name, f, n in oracle_table(ctx.seed + 77):
+        w = guarded(name, f)
         out['n'] += n
         out['nontrivial'] += n
         if w:
@@ -689,24 +771,31 @@ def check_oracles(ctx):
 
 
 def system_checks(ctx):
-    out = []
-    for f in (check_indices, check_poly, check_fit, check_opd, check_oracles):
-        out.extend(f(ctx))
-    return out
+    # a generator, implementation-level verdict first: it does not depend on the Coq side and is reported even when a later
+    # check cannot run (translation failed, harness exception)
+    for f in (check_oracles, check_indices, check_poly, check_fit, check_opd):
+        for res in f(ctx):
+            yield res
 
 
 # --------------------------------------------------------------------------------------------
 # search / findings
 # --------------------------------------------------------------------------------------------
 def search(ctx, broken, disagreements):
-    """the property stated directly on the implementation: index rules (independent Python statement), edge value,
-    orthonormality by exact quadrature, linearity of poly, recovery and linearity of the fit"""
+    """the property stated directly on the implementation, independent of whether the Coq side could run: index rules,
+    every term of every family (poly(c+e_k)-poly(c) = Z_k, edge value, mean square), orthonormality by exact quadrature,
+    linearity of poly, recovery and linearity of the fit.  Returns ALL failing inputs found, those that are not a listed
+    open finding first (so a listed finding can never hide a new violation)."""
+    known = vlib.load_known_findings(PROP)
+    found = []
     for s in (ctx.seed, ctx.seed + 1, ctx.seed + 2):
-        w = all_oracles(s)
-        if w:
-            w['violates_property'] = True
-            return w
-    return None
+        for w in all_witnesses(s):
+            if not any(w.get('kind') == v.get('kind') and w.get('call') == v.get('call') for v in found):
+                found.append(w)
+        if any(not any(matches_finding(w, f) for f in known) for w in found):
+            break
+    found.sort(key=lambda w: any(matches_finding(w, f) for f in known))
+    return found or None
 
 
 def matches_finding(w, f):
